@@ -117,6 +117,21 @@ def cases(env, tier):
     add("Div(r, -1/3)", lambda e, S: m.Div(r0, m.Real((-1, 3))), lambda tr, S: Z(tr, r0) * -3)
     # Boolean
     b = S.B
+    # degenerate arities of the n-ary constructors (empty and singleton argument lists, in every calling convention)
+    add("And/0", lambda e, S: m.And(), lambda tr, S: z3.BoolVal(True))
+    add("And/0-list", lambda e, S: m.And([]), lambda tr, S: z3.BoolVal(True))
+    add("Or/0", lambda e, S: m.Or(), lambda tr, S: z3.BoolVal(False))
+    add("Or/0-list", lambda e, S: m.Or([]), lambda tr, S: z3.BoolVal(False))
+    add("And/1", lambda e, S: m.And(b[0]), lambda tr, S: Z(tr, b[0]))
+    add("And/1-list", lambda e, S: m.And([b[0]]), lambda tr, S: Z(tr, b[0]))
+    add("Or/1", lambda e, S: m.Or([b[1]]), lambda tr, S: Z(tr, b[1]))
+    add("Plus/1", lambda e, S: m.Equals(m.Plus(S.I[0]), S.I[1]), lambda tr, S: Z(tr, S.I[0]) == Z(tr, S.I[1]))
+    add("Times/1", lambda e, S: m.Equals(m.Times([S.I[0]]), S.I[1]), lambda tr, S: Z(tr, S.I[0]) == Z(tr, S.I[1]))
+    add("Plus/0", lambda e, S: m.Plus(), None, raises=True)
+    add("Times/0", lambda e, S: m.Times([]), None, raises=True)
+    add("And/and-of-generator", lambda e, S: m.And(x for x in b[:3]), lambda tr, S: z3.And(*[Z(tr, x) for x in b[:3]]))
+    add("Exists/0", lambda e, S: m.Exists([], b[0]), lambda tr, S: Z(tr, b[0]))
+    add("Function/0", lambda e, S: m.Equals(m.Function(S.I[0], []), S.I[1]), lambda tr, S: Z(tr, S.I[0]) == Z(tr, S.I[1]))
     add("Xor", lambda e, S: m.Xor(b[0], b[1]), lambda tr, S: z3.Xor(Z(tr, b[0]), Z(tr, b[1])))
     add("EqualsOrIff/B", lambda e, S: m.EqualsOrIff(b[0], b[1]), lambda tr, S: Z(tr, b[0]) == Z(tr, b[1]))
     add("infix &/B", lambda e, S: b[0] & b[1], lambda tr, S: z3.And(Z(tr, b[0]), Z(tr, b[1])))
